@@ -296,6 +296,11 @@ var layoutSeeds = []string{
 	"<{|i|\n  yield i if i < 3\n  recur(i + 1)\n}>.new(0)\n  |@{|v| v}\n  |~.len\n",
 }
 
+func init() {
+	// the program that visits every lexer mode (also C19's probe) is a layout seed too
+	layoutSeeds = append(layoutSeeds, richSyntax)
+}
+
 func (c *c16Check) seedProgram(t *tape.Tape) (string, string) {
 	if t.Chance(1, 4) {
 		i := t.Intn(len(layoutSeeds))
